@@ -274,6 +274,9 @@ func TestVerifC08(t *testing.T) {
 	add(c08Scenario{Name: "2 messages reversed, key concurrent", Senders: 1, Msgs: 2, Arrivals: [][]string{{"s0/2", "s0/1"}}, KeyBefore: []bool{false}, Window: 4})
 	add(c08Scenario{Name: "2 messages, two arrival threads, key before", Senders: 1, Msgs: 2, Arrivals: [][]string{{"s0/1"}, {"s0/2"}}, KeyBefore: []bool{true}, Window: 4})
 	add(c08Scenario{Name: "beyond the window first (w=1), key before", Senders: 1, Msgs: 2, Arrivals: [][]string{{"s0/2", "s0/1"}}, KeyBefore: []bool{true}, Window: 1})
+	// the per-device cache must hand out the smallest counter first: with a window of one key only message 1 can open
+	// when the key arrives, and message 2 only after it
+	add(c08Scenario{Name: "2 messages parked, window of 1, key concurrent", Senders: 1, Msgs: 2, Arrivals: [][]string{{"s0/2", "s0/1"}}, KeyBefore: []bool{false}, Window: 1})
 	add(c08Scenario{Name: "duplicate arrival, key before", Senders: 1, Msgs: 1, Arrivals: [][]string{{"s0/1"}, {"s0/1"}}, KeyBefore: []bool{true}, Window: 4})
 	add(c08Scenario{Name: "two senders, keys concurrent", Senders: 2, Msgs: 1, Arrivals: [][]string{{"s0/1", "s1/1"}}, KeyBefore: []bool{false, false}, Window: 4})
 	add(c08Scenario{Name: "1 message, key concurrent, cancel", Senders: 1, Msgs: 1, Arrivals: [][]string{{"s0/1"}}, KeyBefore: []bool{false}, Window: 4, Cancel: true})
